@@ -11,7 +11,8 @@
 (***************************************************************************)
 EXTENDS Exec, Json, IOUtils, TLC
 
-CONSTANT Deviations        \* names of the deviations of open known findings
+CONSTANT Deviations,       \* names of the deviations of open known findings
+         CheckMem          \* TRUE: the logged memory figure must equal MemOf of the logged dataset (C19)
 
 Trace == ndJsonDeserialize(IOEnv.TRACE)
 
@@ -50,8 +51,12 @@ Explaining(e) == {D \in SUBSET (RelevantDevs(e.cmd) \cap Deviations) : Matches(e
 
 Init == l = 1 /\ st = EmptyStore /\ dev = [n \in Deviations |-> 0] /\ nskip = 0
 
+\* C19: the reported figure is a function of the (physically stored) dataset
+MemOK(e) == CheckMem => e.mem = MemOf(ProjStore(e.st))
+
 TraceReset ==
     /\ l <= Len(Trace) /\ Trace[l].ev = "reset"
+    /\ MemOK(Trace[l])
     /\ st' = ProjStore(Trace[l].st)
     /\ l' = l + 1 /\ UNCHANGED <<dev, nskip>>
 
@@ -66,24 +71,48 @@ TraceCmd ==
                   /\ dev' = [n \in Deviations |-> IF n \in D THEN dev[n] + 1 ELSE dev[n]]
                   /\ IF \A n \in D : dev[n] > 0 THEN TRUE ELSE PrintT(<<"DEVIATION", l, D, e.cmd>>)
        /\ nskip' = IF Outcome(e, {}).rel = "skip" THEN nskip + 1 ELSE nskip
+       /\ (e.r.t \in {"panic", "hang"} \/ MemOK(e))
        /\ st' = ProjStore(e.st)
     /\ l' = l + 1
+
+\* one run of the background expiry sampler on database e.db: it may remove keys of that database
+\* whose deadline has passed and nothing else, and it must not fail or kill the process
+TraceSample ==
+    /\ l <= Len(Trace) /\ Trace[l].ev = "sample"
+    /\ LET e == Trace[l]   new == ProjStore(e.st) IN
+       /\ ~("dead" \in DOMAIN e) /\ ~("err" \in DOMAIN e)
+       /\ DOMAIN new \subseteq DOMAIN st
+       /\ \A x \in DOMAIN new : new[x] = st[x]
+       /\ \A x \in (DOMAIN st) \ (DOMAIN new) : x[1] = e.db /\ ~LiveEnt(st[x], e.now)
+       /\ MemOK(e)
+       /\ st' = new
+    /\ l' = l + 1 /\ UNCHANGED <<dev, nskip>>
+
+\* the embedded caller selects another database: nothing in the dataset changes
+TraceSelect ==
+    /\ l <= Len(Trace) /\ Trace[l].ev = "select"
+    /\ LET e == Trace[l] IN
+       /\ ~("dead" \in DOMAIN e) /\ ~("err" \in DOMAIN e)
+       /\ ProjStore(e.st) = st
+       /\ st' = st
+    /\ l' = l + 1 /\ UNCHANGED <<dev, nskip>>
 
 \* diagnostics only: never enabled
 TraceStuck ==
     /\ l <= Len(Trace) /\ Trace[l].ev = "cmd"
     /\ LET e == Trace[l] IN
-       /\ ~Matches(e, {}) /\ Explaining(e) = {}
+       /\ ((~Matches(e, {}) /\ Explaining(e) = {}) \/ ~(e.r.t \in {"panic", "hang"} \/ MemOK(e)))
        /\ PrintT(<<"MISMATCH-LINE", l>>)
        /\ PrintT(<<"MISMATCH-CMD", e.cmd>>)
        /\ PrintT(<<"MISMATCH-MODEL-REPLY", Outcome(e, {}).r>>)
        /\ PrintT(<<"MISMATCH-LOGGED-REPLY", e.r>>)
        /\ PrintT(<<"MISMATCH-MODEL-STATE", Norm(Outcome(e, {}).S, e.now)>>)
        /\ PrintT(<<"MISMATCH-LOGGED-STATE", Norm(ProjStore(e.st), e.now)>>)
+       /\ (~CheckMem \/ PrintT(<<"MISMATCH-MEM", "logged", e.mem, "MemOf(logged dataset)", MemOf(ProjStore(e.st))>>))
     /\ FALSE
     /\ UNCHANGED vars
 
-Next == TraceReset \/ TraceCmd \/ TraceStuck
+Next == TraceReset \/ TraceCmd \/ TraceSample \/ TraceSelect \/ TraceStuck
 
 Spec == Init /\ [][Next]_vars
 
